@@ -458,6 +458,7 @@ func runSession(alpha []sEvent, hist []int, o sessOpts) *sessResult {
 			}
 			isFrame := false
 			predicted := false
+			probeOK := map[netip.Addr]bool{} // addresses purge may probe during this step
 			fail := func(class, sig, what string) {
 				failed = true
 				viol(class, sig, fmt.Sprintf("step %d %s: %s", si+1, ev, what))
@@ -576,6 +577,13 @@ func runSession(alpha []sEvent, hist []int, o sessOpts) *sessResult {
 					}
 				case "tick":
 					vsched.Advance(int64(ev.Dur))
+					// the addresses purge may probe during this step: online before the step and silent for longer than
+					// the probe deadline at its end
+					for _, mh := range model.hosts {
+						if mh.online && mh.last < vsched.NowNanos()-int64(o.probe) {
+							probeOK[mh.ip] = true
+						}
+					}
 					predicted = model.purge(vsched.NowNanos())
 				}
 				vsched.WaitIdle()
@@ -594,6 +602,22 @@ func runSession(alpha []sEvent, hist []int, o sessOpts) *sessResult {
 			for _, f := range conn.Take() {
 				step.frames = append(step.frames, fmt.Sprintf("%x", f.Data))
 				res.sent = append(res.sent, f)
+				// C07: the probes sent by purge carry the addresses of the hosts being probed
+				info := refnet.DecodeSent(f.Data, env.HostMAC)
+				switch {
+				case info.Kind == "arp" && info.ARPOp == 1:
+					if !probeOK[info.ARPTpa] || info.ARPSpa != sIPs[iHost] || !bytes.Equal(info.ARPSha[:], env.HostMAC) {
+						fail("frame", "probe-target", fmt.Sprintf("ARP probe sender=(%x,%v) target=%v: purge probes tracked hosts that were silent for the probe deadline %v from the host address", info.ARPSha, info.ARPSpa, info.ARPTpa, keysOf(probeOK)))
+					}
+				case info.Kind == "ns":
+					if !probeOK[info.Target] {
+						fail("frame", "probe-target", fmt.Sprintf("neighbour solicitation for %v: purge probes tracked hosts that were silent for the probe deadline %v", info.Target, keysOf(probeOK)))
+					}
+				case info.Kind == "icmp6-echo" && info.ICMPType == 128:
+					if !probeOK[info.DstIP] {
+						fail("frame", "probe-target", fmt.Sprintf("echo request to %v: purge probes tracked hosts that were silent for the probe deadline %v", info.DstIP, keysOf(probeOK)))
+					}
+				}
 			}
 			// ---- C05 invariant
 			if inv := sessInvariant(s); inv != "" {
@@ -642,6 +666,21 @@ func runSession(alpha []sEvent, hist []int, o sessOpts) *sessResult {
 				}
 				lastNote[n.Addr.IP] = full
 				lastOwn[n.Addr.IP] = own
+			}
+			// the transitions that are notified are the transitions of the reference model (statement: online when first
+			// seen or back from offline, offline when aged out or superseded by a new IPv4 address of the same MAC)
+			lastInStep := map[netip.Addr]bool{}
+			for _, n := range received {
+				lastInStep[n.Addr.IP] = n.Online
+			}
+			for _, ip := range sIPs {
+				on, notified := lastInStep[ip]
+				if !notified {
+					continue
+				}
+				if mh := model.hosts[ip]; mh != nil && mh.online != on {
+					fail("notify", "transition-not-in-model", fmt.Sprintf("notification online=%v for %v but by the rules of the statement the address is online=%v", on, ip, mh.online))
+				}
 			}
 			checkOfflineReported := func(h *packet.Host, why string) {
 				if prev, ok := lastNote[h.Addr.IP]; ok && !h.Online && strings.Contains(prev, " online=true") {
@@ -706,6 +745,15 @@ func runSession(alpha []sEvent, hist []int, o sessOpts) *sessResult {
 		viol("panic", "session-"+res.exec.Outcome.String(), fmt.Sprintf("execution ended with %s: %v blocked=%v", res.exec.Outcome, firstLine(res.exec.Panics), res.exec.Blocked))
 	}
 	return res
+}
+
+func keysOf(m map[netip.Addr]bool) []string {
+	var l []string
+	for k := range m {
+		l = append(l, k.String())
+	}
+	sort.Strings(l)
+	return l
 }
 
 func firstLine(p []string) string {
@@ -954,5 +1002,5 @@ func sessDriver(id, class, rule string) *Driver {
 func init() {
 	Registry["C04"] = sessDriver("C04", "model", "explicit-state BFS over event histories (frames from 5 MAC classes x 10 addresses, ARP incl. sender!=ethernet source, DHCP frames, DHCPv4Update, offers, capture/release, name updates, virtual-time ticks); after every transition FindIP/GetHosts/IPAddrs/FindByMAC/FindMACEntry are compared with the reference model built from the rules of the statement")
 	Registry["C05"] = sessDriver("C05", "invariant", "same exploration as C04, every history delivered twice (private buffers, and one receive buffer overwritten after every call as a zero-copy packet loop does); after every transition the structural invariant (index<->MAC list bijection, same pointer identity, unique MACs, host MAC == entry MAC, online host => online MAC entry, PrintTable does not panic) is evaluated on the exported tables")
-	Registry["C06"] = sessDriver("C06", "notify", "same exploration as C04 with Notify after every Parse and the channel drained after every step; exactly-once accounting per address: content equals tracked state, no duplicate, nothing lost for the frame's host, superseded/aged addresses reported offline, offline-before-online order")
+	Registry["C06"] = sessDriver("C06", "notify", "same exploration as C04 with Notify after every Parse and the channel drained after every step; exactly-once accounting per address: content equals tracked state, no duplicate, nothing lost for the frame's host, superseded/aged addresses reported offline, offline-before-online order, every notified transition is a transition of the reference model")
 }
